@@ -108,6 +108,18 @@ func c18Keys() (map[string]principal.Signer, []string, error) {
 	}
 	keys["web"] = ws
 	names = append(names, "web")
+	// further wrapped principals (not in `names`: used by the programs of section F only)
+	for i, ds := range c18WrappedDIDs {
+		wd, err := did.Parse(ds)
+		if err != nil {
+			return nil, nil, err
+		}
+		w, err := psigner.Wrap(keys["ed2"], wd)
+		if err != nil {
+			return nil, nil, err
+		}
+		keys[fmt.Sprintf("wrapped%d", i)] = w
+	}
 	return keys, names, nil
 }
 
@@ -354,8 +366,40 @@ func c18Run() ([]c18Rec, error) {
 		sg := s.Sign([]byte("golden message")).Bytes()
 		recs = append(recs, c18Rec{ID: "key-" + key, Kind: "key", KeyStr: ks, DID: s.DID().String(), DIDHex: hex.EncodeToString(s.DID().Bytes()), Sig: hex.EncodeToString(sg)})
 	}
+	// F. DID strings of many methods (parse -> bytes -> string), and tokens between such principals
+	for i, ds := range c18DIDs {
+		d, err := did.Parse(ds)
+		if err != nil {
+			return nil, fmt.Errorf("program did-%d (%s): %v", i, ds, err)
+		}
+		back, err := did.Decode(d.Bytes())
+		if err != nil {
+			return nil, fmt.Errorf("program did-%d (%s): decode of own bytes: %v", i, ds, err)
+		}
+		recs = append(recs, c18Rec{ID: fmt.Sprintf("did-%02d", i), Kind: "did", DID: ds, DIDHex: hex.EncodeToString(d.Bytes()), KeyStr: d.String(), Format: back.String()})
+	}
+	for i, ds := range c18WrappedDIDs {
+		k := fmt.Sprintf("wrapped%d", i)
+		ws := keys[k]
+		ad, _ := did.Parse(c18DIDs[(i*3+1)%len(c18DIDs)])
+		d, err := delegation.Delegate(ws, ad, []ucan.Capability[ucan.CaveatBuilder]{
+			ucan.NewCapability[ucan.CaveatBuilder]("store/add", ds, nodeNb{c18Caveats[i]()})}, delegation.WithExpiration(1900000000), delegation.WithNonce(k))
+		if err != nil {
+			return nil, fmt.Errorf("program tok-%s: %v", k, err)
+		}
+		if err := tokRec("tok-"+k, k, d); err != nil {
+			return nil, err
+		}
+	}
 	return recs, nil
 }
+
+var c18WrappedDIDs = []string{"did:dns:golden.example", "did:ion:EiClkZMDxPKqC9c", "did:mailto:example.com:alice"}
+
+var c18DIDs = []string{"did:web:example.com", "did:web:example.com:user:alice", "did:mailto:example.com:alice", "did:dns:example.com", "did:dht:i9xkp8ddcbcg8jwq54ox699wuzxyifsqx4jru45zodqu453ksz6y",
+	"did:ion:EiClkZMDxPKqC9c-umQfTkR8vvZ9JPhl_xLDI9Nfk38w5w", "did:indy:sovrin:WRfXPg8dantKVubE3HX8pw", "did:iota:0xe4edef97da1257e83cbeb49159cfdd2da6ac971ac447f233f8439cf29376ebfe",
+	"did:plc:ewvi7nxzyoun6zhxrhs64oiz", "did:pkh:eip155:1:0xb9c5714089478a327f09197987f16f9e5d936e8a", "did:d:x", "did:i:x", "did:did:x", "did:x:did:key:y", "did:ethr:0xb9c5714089478a327f09197987f16f9e5d936e8a",
+	"did:key:z6MkhaXgBZDvotDkL5257faiztiGiC2QtKLGpbnnEGta2doK", "did:key:z4MXj1wBzi9jUstyPMS4jQqB6KdJaiatPkAtVtGc6bQEQEEsKTic4G7Rou3iBf9vPmT5dbkm9qsZsuVNjq8HCuW1w24nhBFGkRE4cd2Uf2tfrB3N7h4mnyPp1BF3ZttHTYv3DLUPi1zMdkULiow3M1GfXkoC6DoxDUm1jmN6GBj22SjVsr6dxezRVQc7aj9TxE7JLbMH1wh5X3kA58H3DFW8rnYMakFGbca5CB2Jf6CnGQZmL7o5uJAdTwXfy2iiiyPxXEGerMhHwhjTA1mKYobyk2CpeEcmvynADfNZ5MBvcCS7m3XkFCMNUYBS9NQ3fze6vMSUPsNa6GVYmKx2x6JrdEjCk3qRMMmyjnjCMfR4pXbRMZa3i"}
 
 func outcomeBytesOf(root []byte) ([]byte, error) {
 	// re-encode the outcome of a receipt root block (what the issuer signed)
@@ -447,6 +491,10 @@ func init() {
 			case "message":
 				cmp(g.ID, "root block", g.Root, n.Root)
 				cmp(g.ID, "CID", g.CID, n.CID)
+			case "did":
+				cmp(g.ID, "DID bytes", g.DIDHex, n.DIDHex)
+				cmp(g.ID, "DID string", g.KeyStr, n.KeyStr)
+				cmp(g.ID, "DID string after decoding the bytes", g.Format, n.Format)
 			case "key":
 				cmp(g.ID, "key string", g.KeyStr, n.KeyStr)
 				cmp(g.ID, "DID", g.DID, n.DID)
@@ -556,6 +604,16 @@ func init() {
 				root, _ := hex.DecodeString(g.Root)
 				if mt, err := amsgCoqFromBytes(root); err == nil {
 					msgCases = append(msgCases, fmt.Sprintf("(%d, %s, %s)", gi, mt, hx(root)))
+				}
+			case "did":
+				raw, _ := hex.DecodeString(g.DIDHex)
+				if d, err := did.Decode(raw); err != nil {
+					bad("did", "recorded DID bytes no longer decode: "+err.Error())
+				} else if d.String() != g.DID {
+					bad("did", "recorded DID bytes decode to another DID string")
+				}
+				if d, err := did.Parse(g.DID); err != nil || hex.EncodeToString(d.Bytes()) != g.DIDHex {
+					bad("did", "recorded DID string parses to other bytes")
 				}
 			case "key":
 				var s principal.Signer
